@@ -15,7 +15,7 @@ from sa.model import AnalysisError, FuncInfo
 from sa.ctx import Ctx, short, stmt_key
 from sa.cfg import NORMAL, describe_path
 from sa.report import Report
-from sa.util import cfg_root, node_has_call, node_stores_attr, has_fact
+from sa.util import cfg_root, node_has_call, node_stores_attr, has_fact, fact_in, local_assigned_from
 from sa import pat
 
 MAP_OWNERS = {"HierarchicalCache.__init__", "HierarchicalCache.__insert_node", "HierarchicalCache._delete", "HierarchicalCache._set_oid"}
@@ -155,7 +155,7 @@ class C19:
             good = bool(regs) and bool(evs)
             if good:
                 rf = ctx.facts_at(f, regs[0])
-                good = set(rf) <= {("%s.oid" % cur, True), ("%s.oid" % node, True)} and ("%s.oid" % cur, True) in rf
+                good = set(rf) <= {("%s.oid" % cur, True), ("%s.oid" % node, True)} and fact_in(rf, "%s.oid" % cur, True)
                 ef = ctx.facts_at(f, evs[0])
                 good = good and any((not pol and "==" in txt) or (pol and "!=" in txt) or (not pol and " is " in txt) for (txt, pol) in ef)
                 detail = "register facts %s, evict facts %s" % (sorted(rf), sorted(ef))
@@ -189,7 +189,8 @@ class C19:
         rep.rule("C19.H5", "_update: when the type changes the old node is deleted before a new one is made", expect_min=1)
         u = self.H.methods["_update"]
         gu = ctx.cfg(u)
-        dl = [n for n in gu.nodes if node_has_call(n, "self._delete(remove_node=node)") or node_has_call(n, "self._delete(node)")]
+        nd = local_assigned_from(ctx, u, "self._get_node(path=$P)") or "node"
+        dl = [n for n in gu.nodes if node_has_call(n, "self._delete(remove_node=%s)" % nd) or node_has_call(n, "self._delete(%s)" % nd)]
         good = bool(dl) and all(any((not pol) and ".type == " in txt for (txt, pol) in ctx.facts(u).facts(n)) for n in dl)
         # on the type-change path make_node is reached only after the delete
         tests = [n for n in gu.nodes if n.kind == "test" and ".type != " in ast.unparse(n.ast)]
@@ -199,9 +200,10 @@ class C19:
                   "a node whose type changed is replaced without deleting the old node first (its descendants' ids stay registered)")
         rep.rule("C19.H6", "_rename: detach the node, evict whatever is at the new path, then insert - in that order; the root cannot be renamed", expect_min=3)
         r = self.H.methods["_rename"]
-        det = lambda n: node_has_call(n, "self._delete(node)")   # noqa: E731
+        rnd = local_assigned_from(ctx, r, "self._get_node(path=$P)") or "node"
+        det = lambda n: node_has_call(n, "self._delete(%s)" % rnd)   # noqa: E731
         evt = lambda n: node_has_call(n, "self.delete(path=%s)" % r.params()[2])   # noqa: E731
-        ins = lambda n: node_has_call(n, "self.__insert_node(node, %s)" % r.params()[2])   # noqa: E731
+        ins = lambda n: node_has_call(n, "self.__insert_node(%s, %s)" % (rnd, r.params()[2]))   # noqa: E731
         ok1, why1, p1 = self._precedes(r, det, evt)
         ok2, why2, p2 = self._precedes(r, evt, ins)
         rep.check("C19.H6", "_rename|detach-then-evict", r, ok1, "detach precedes eviction of the target", "rename evicts the target before detaching the source (renaming a folder into itself deletes it) %s" % why1,
@@ -210,7 +212,7 @@ class C19:
                   witness=describe_path(p2) if p2 else None)
         gr = ctx.cfg(r)
         rz = [n for n in gr.nodes if n.kind == "stmt" and isinstance(n.ast, ast.Raise)]
-        good = bool(rz) and all(("node and node.is_root", True) in ctx.facts(r).facts(n) or ("node.is_root", True) in ctx.facts(r).facts(n) for n in rz)
+        good = bool(rz) and all(fact_in(ctx.facts(r).facts(n), "%s.is_root" % rnd, True) for n in rz)
         okr, _, _ = self._precedes(r, lambda n: n in rz or (n.kind == "test" and "is_root" in ast.unparse(n.ast)), det)
         rep.check("C19.H6", "_rename|root", r, good and okr, "root rename refused before anything is detached", "the root can be renamed / detached")
 
